@@ -14,6 +14,7 @@ from __future__ import annotations
 import json
 import os
 import warnings
+import inspect
 
 import numpy as np
 
@@ -321,6 +322,25 @@ class SystemReplayer:
             self.n_method_evals += 1
             if np.shape(gd) != np.shape(ref) or not np.array_equal(gd, ref):
                 ctx.violation(f"scatter:{m}", f"system.{m} differs from the dense reference (members {order}): got {np.asarray(gd).tolist()} expected {np.asarray(ref).tolist()} after {hist}", rep)
+                continue
+            # matrices: every output format means the same matrix (overlapping blocks are summed in all of them)
+            try:
+                has_format = "format" in inspect.signature(getattr(system, m)).parameters
+            except (TypeError, ValueError):
+                has_format = False
+            if has_format:
+                for fmt in ("coo", "csr", "csc", "array"):
+                    try:
+                        with warnings.catch_warnings():
+                            warnings.simplefilter("ignore")
+                            gf = _dense(getattr(system, m)(*args, format=fmt))
+                    except Exception as ex:
+                        ctx.violation(f"scatter:{m}:format={fmt}:raises:{type(ex).__name__}", f"system.{m}(..., format={fmt!r}) raised {type(ex).__name__}: {ex} after {hist}", rep)
+                        continue
+                    self.n_method_evals += 1
+                    if np.shape(gf) != np.shape(ref) or not np.array_equal(gf, ref):
+                        ctx.violation(f"scatter:{m}:format={fmt}", f"system.{m}(..., format={fmt!r}) differs from the dense reference (members {order}): got {np.asarray(gf).tolist()} "
+                                                                  f"expected {np.asarray(ref).tolist()} after {hist}", rep)
         return True
 
 
